@@ -40,7 +40,7 @@ fn any_type() -> Type {
     match t { 0 => Type::ST_DATA, 1 => Type::ST_FIN, _ => Type::ST_STATE }
 }
 
-// @verif id=REC.nosack props=C06 tier=quick timeout=900
+// @verif id=REC.nosack props=C06,C09 tier=quick timeout=900
 // @functions Recovery::on_ack, recovery::count_non_sack_duplicates, Segments::first_seq_nr, Segments::calc_pipe
 // @bounds phase CountingDuplicates{dup_acks 0..=4}, receiver never sent a SACK; any remembered last ACK (or none); header of type DATA/FIN/STATE with any ack_nr and window, no SACK; real Segments with 2 queued segments (any sizes, snd_una = 65535 so the queue straddles the wrap; never-sent, so the pipe estimate is trivially 0), last_sent = snd_una+1; mock controller
 // @asserts duplicate counted iff ST_STATE with the same ack_nr and unchanged window as the remembered ACK, otherwise the count resets and the ACK is remembered; fast recovery is entered exactly when the count reaches 3 (third duplicate), never earlier; on entry: controller notified once, recovery point = last sent, high_rxt = snd_una-1, cwnd = controller ssthresh
@@ -87,7 +87,7 @@ fn rec_counting_duplicates_nosack() {
     std::mem::forget(segs);
 }
 
-// @verif id=REC.sack props=C06 tier=quick timeout=900
+// @verif id=REC.sack props=C06,C09 tier=quick timeout=900
 // @functions Recovery::on_ack, recovery::count_sack_duplicates, SelectiveAck::as_bitslice
 // @bounds phase CountingDuplicates{0..=4}; receiver_supports_sack arbitrary; header with a SACK of 16 arbitrary leading bits (any type, ack_nr, window); 2-segment queue
 // @asserts a SACK naming >= 3 packets enters recovery at once ("equivalent selective-ACK evidence"); fewer: the count goes up by one and recovery starts exactly when it reaches 3; receiver marked SACK-capable
@@ -126,7 +126,7 @@ fn rec_counting_duplicates_sack() {
     std::mem::forget(segs);
 }
 
-// @verif id=REC.other props=C06,C10 tier=quick timeout=900
+// @verif id=REC.other props=C06,C10,C09 tier=quick timeout=900
 // @functions Recovery::on_ack (IgnoringUntilRecoveryPoint, Recovering, empty queue), Recovery::on_rto_timeout, Recovery::is_recovering, Recovery::remaining_cwnd, Segments::calc_flight_size
 // @bounds phases IgnoringUntilRecoveryPoint{any point within 1024 of ack_nr} and Recovering{any}; CountingDuplicates with an EMPTY queue; any header (no SACK); then on_rto_timeout from every phase
 // @asserts while a timeout recovery is in progress duplicate ACKs never start fast recovery; the ignore phase ends exactly when ack_nr reaches the recovery point; Recovering ends exactly at the recovery point (controller told once), otherwise unchanged; empty queue: count reset, no recovery; RTO during Recovering -> ignore phase with recovery point = last sent, other phases untouched
@@ -207,7 +207,7 @@ fn rec_other_phases_and_rto() {
     kani::cover!(true, "end of harness reachable (assumptions satisfiable, no unconditional failure)");
 }
 
-// @verif id=REC.three props=C06 tier=quick timeout=900
+// @verif id=REC.three props=C06,C09 tier=quick timeout=900
 // @functions Recovery::new, Recovery::on_ack
 // @bounds fresh Recovery; 1-segment queue; four identical ST_STATE ACKs (same ack_nr, same window, symbolic values) and, in a second run, a window update in third position
 // @asserts exactly the third duplicate (fourth identical ACK) starts fast recovery; a window update in between resets the count
